@@ -979,6 +979,27 @@ Section WithEnv.
 
   Definition str_or_empty (o : option bytes) : bytes := match o with Some b => b | None => [] end.
 
+  (* the fixed-layout part of get_entry: walk vn_next [no] times, then the record and its first auxiliary
+     record.  (The C++ interleaves the two string look-ups with these reads; every read below is inside the
+     section once the two bounds tests have passed, so the order cannot be observed.) *)
+  Record verneed_raw := mkVNraw { vr_version : N; vr_file : N; vr_hash : N; vr_flags : N; vr_other : N; vr_name : N }.
+  Definition verneed_core (enc : endian) (p : ptr) (fuel : list N) (size : N) (no : N) : res (option verneed_raw) :=
+    o <- ver_chain fuel enc p size 16 12 0 no ;;
+    match o with
+    | None => Ok None
+    | Some off =>
+        aux <- rd_word enc p (off + 8) 4 ;;
+        let ao := off + aux in
+        if size - 16 <? ao then Ok None else
+        file <- rd_word enc p (off + 4) 4 ;;
+        name <- rd_word enc p (ao + 8) 4 ;;
+        version <- rd_word enc p off 2 ;;
+        hash <- rd_word enc p ao 4 ;;
+        flags <- rd_word enc p (ao + 4) 2 ;;
+        other <- rd_word enc p (ao + 6) 2 ;;
+        Ok (Some (mkVNraw version file hash flags other name))
+    end.
+
   Definition verneed_get (el : elfio) (sec : N) (num : N) (no : N) : res (elfio * option verneed_view) :=
     match get_sec el sec with
     | None => Ok (el, None)
@@ -991,28 +1012,34 @@ Section WithEnv.
           | Some b =>
               let size := sh_size s1 in
               if size <? 16 then Ok (el1, None) else
-              let enc := el_enc el1 in
-              o <- ver_chain (0 :: b) enc p size 16 12 0 (wrap32 no) ;;
-              match o with
+              r <- verneed_core (el_enc el1) p (0 :: b) size (wrap32 no) ;;
+              match r with
               | None => Ok (el1, None)
-              | Some off =>
-                  aux <- rd_word enc p (off + 8) 4 ;;
-                  let ao := off + aux in
-                  if size - 16 <? ao then Ok (el1, None) else
-                  file <- rd_word enc p (off + 4) 4 ;;
-                  name <- rd_word enc p (ao + 8) 4 ;;
-                  '(el2, fs) <- lookup_str el1 (wrap32 (sh_link s1)) file ;;
-                  '(el3, ds) <- lookup_str el2 (wrap32 (sh_link s1)) name ;;
-                  version <- rd_word enc p off 2 ;;
-                  hash <- rd_word enc p ao 4 ;;
-                  flags <- rd_word enc p (ao + 4) 2 ;;
-                  other <- rd_word enc p (ao + 6) 2 ;;
-                  Ok (el3, Some (mkVN version (str_or_empty fs) hash flags other (str_or_empty ds)))
+              | Some y =>
+                  '(el2, fs) <- lookup_str el1 (wrap32 (sh_link s1)) (vr_file y) ;;
+                  '(el3, ds) <- lookup_str el2 (wrap32 (sh_link s1)) (vr_name y) ;;
+                  Ok (el3, Some (mkVN (vr_version y) (str_or_empty fs) (vr_hash y) (vr_flags y) (vr_other y) (str_or_empty ds)))
               end
           end
     end.
 
   Record verdef_view := mkVD { vd_flags : N; vd_ndx : N; vd_hash : N; vd_dep : bytes }.
+
+  Record verdef_raw := mkVDraw { dr_flags : N; dr_ndx : N; dr_hash : N; dr_name : N }.
+  Definition verdef_core (enc : endian) (p : ptr) (fuel : list N) (size : N) (no : N) : res (option verdef_raw) :=
+    o <- ver_chain fuel enc p size 20 16 0 no ;;
+    match o with
+    | None => Ok None
+    | Some off =>
+        aux <- rd_word enc p (off + 12) 4 ;;
+        let ao := off + aux in
+        if size - 8 <? ao then Ok None else
+        name <- rd_word enc p ao 4 ;;
+        flags <- rd_word enc p (off + 2) 2 ;;
+        ndx <- rd_word enc p (off + 4) 2 ;;
+        hash <- rd_word enc p (off + 8) 4 ;;
+        Ok (Some (mkVDraw flags ndx hash name))
+    end.
 
   Definition verdef_get (el : elfio) (sec : N) (num : N) (no : N) : res (elfio * option verdef_view) :=
     match get_sec el sec with
@@ -1026,20 +1053,12 @@ Section WithEnv.
           | Some b =>
               let size := sh_size s1 in
               if size <? 20 then Ok (el1, None) else
-              let enc := el_enc el1 in
-              o <- ver_chain (0 :: b) enc p size 20 16 0 (wrap32 no) ;;
-              match o with
+              r <- verdef_core (el_enc el1) p (0 :: b) size (wrap32 no) ;;
+              match r with
               | None => Ok (el1, None)
-              | Some off =>
-                  aux <- rd_word enc p (off + 12) 4 ;;
-                  let ao := off + aux in
-                  if size - 8 <? ao then Ok (el1, None) else
-                  name <- rd_word enc p ao 4 ;;
-                  '(el2, ds) <- lookup_str el1 (wrap32 (sh_link s1)) name ;;
-                  flags <- rd_word enc p (off + 2) 2 ;;
-                  ndx <- rd_word enc p (off + 4) 2 ;;
-                  hash <- rd_word enc p (off + 8) 4 ;;
-                  Ok (el2, Some (mkVD flags ndx hash (str_or_empty ds)))
+              | Some y =>
+                  '(el2, ds) <- lookup_str el1 (wrap32 (sh_link s1)) (dr_name y) ;;
+                  Ok (el2, Some (mkVD (dr_flags y) (dr_ndx y) (dr_hash y) (str_or_empty ds)))
               end
           end
     end.
